@@ -25,6 +25,75 @@ theorem model_uses_enum :
     (init 1).status = c_managerUninitialized ∧ LB.code .rr = c_RoundRobin ∧ LB.code .rand = c_Random ∧
     LB.ofCode c_Random = .rand ∧ LB.ofCode c_RoundRobin = .rr := by decide
 
+/-! ### Who enters the pool, and from where (HARD)
+
+The model puts a goroutine inside `manager.Run` in two places only: the step `Act.cas` taken with
+`status = managerUninitialized` (theorem `model_run_entered_only_by_cas`: no other step lets the list of runners grow),
+which is why at most one goroutine is ever inside `Run`, and the sequential `resetSeq` (`manager.Reset` on a quiescent
+manager).  Its environment is `spawn` (a call of `Pick`), `setNumLoops`, `setLB`.  The source must agree: `Run` is selected
+in `Pick` behind the successful CAS and in `Reset`, nowhere else and never as `go` / `defer` / method value; the
+package-level entry points of netpoll_unix.go reach the global pool through `Pick`, `SetNumLoops`, `SetLoadBalance` only
+(`Initialize` = one `Pick`), and so does every other user of the global. -/
+
+/-- in the model a goroutine gets into `Run` only by winning the CAS `managerUninitialized → managerInitializing` -/
+theorem model_run_entered_only_by_cas (s s' : S) (a : Act) (h : step s a = some s')
+    (hg : s.runners.length < s'.runners.length) : a = .cas ∧ s.status = c_managerUninitialized := by
+  cases a with
+  | cas =>
+    refine ⟨rfl, ?_⟩
+    simp only [step] at h
+    split at h
+    · cases h
+    · split at h
+      · assumption
+      · cases h; simp at hg
+  | run i f =>
+    exfalso
+    simp only [step, runStep] at h
+    repeat' split at h
+    all_goals first
+      | (cases h; done)
+      | (cases h; simp [S.runReturn, S.runPanic, S.setRunner, List.length_eraseIdx] at hg; done)
+      | (cases h; simp [S.runReturn, S.runPanic, S.setRunner, List.length_eraseIdx] at hg; split at hg <;> omega)
+  | _ =>
+    exfalso
+    simp only [step, setNumLoops, setLoadBalance] at h
+    repeat' split at h
+    all_goals first
+      | (cases h; done)
+      | (cases h; simp at hg; done)
+      | (cases h; revert hg; simp only []; (repeat' split) <;> simp)
+
+/-- every selection of `Run` on a manager: `Reset` (sequential, the model's `resetSeq`) and `Pick` behind the successful
+status CAS (the model's `Act.cas`); both plain calls -/
+theorem run_entered_only_under_cas_or_reset :
+    mgr_run_sites = [("manager.Reset", "call", false), ("manager.Pick", "call", true)] := by decide
+
+/-- the methods that open / close pollers without taking the status word themselves (`Run`, `Close`, `Reset`) are selected
+inside poll_manager.go only: `Run`'s deferred `Close`, `Reset → Run`, `Pick → Run` -/
+theorem unlocked_methods_stay_internal :
+    mgr_method_uses.filter (fun u => ["Run", "Close", "Reset"].contains u.2.2.1) =
+      [("poll_manager.go", "manager.Run", "Close", "call"),
+       ("poll_manager.go", "manager.Reset", "Run", "call"),
+       ("poll_manager.go", "manager.Pick", "Run", "call")] := by decide
+
+/-- the package-level entry points (netpoll_unix.go) and the manager method each calls on the global pool -/
+theorem entry_points :
+    mgr_global_uses.filter (fun u => u.1 == "netpoll_unix.go") =
+      [("netpoll_unix.go", "<package>", "pollmanager init newManager(runtime.GOMAXPROCS(0)/20 + 1)"),
+       ("netpoll_unix.go", "Initialize", "pollmanager call Pick"),
+       ("netpoll_unix.go", "Configure", "pollmanager call SetNumLoops"),
+       ("netpoll_unix.go", "Configure", "pollmanager call SetLoadBalance"),
+       ("netpoll_unix.go", "SetNumLoops", "pollmanager call SetNumLoops"),
+       ("netpoll_unix.go", "SetLoadBalance", "pollmanager call SetLoadBalance")] := by decide
+
+/-- whoever else touches the global pool does it through the model's environment alphabet: a call of `Pick`,
+`SetNumLoops` or `SetLoadBalance` (no alias, no reassignment, no other method) -/
+theorem global_pool_used_through_model_alphabet :
+    mgr_global_uses.all (fun u => u.2.1 == "<package>" ||
+      ["pollmanager call Pick", "pollmanager call SetNumLoops", "pollmanager call SetLoadBalance"].contains u.2.2) = true := by
+  decide
+
 -- SOFT BELOW (step fingerprints)
 
 /-- `init`: SetLoadBalance(RoundRobin) then SetNumLoops(n), error ignored -/
